@@ -399,16 +399,16 @@ def ctxParseNewRange (line : Bytes) (s e : Int) : Except Exn (Option (Int × Int
     let (ok, s', e') := parseContextRange s e (ctxRangeText line)
     if ok then .ok (some (s', e')) else .error .runtimeError
 
-/-- skip to the "*** n,m ****" line -/
-def ctxSkipToOldRange : Nat → Parser → Int → Int → Parser × Int × Int
-  | 0, par, s, e => (par, s, e)
+/-- skip to the "*** n,m ****" line; an unreadable range is an error (`std::runtime_error`) -/
+def ctxSkipToOldRange : Nat → Parser → Int → Int → Except Exn (Parser × Int × Int)
+  | 0, par, s, e => .ok (par, s, e)
   | fuel + 1, par, s, e =>
     match par.getLine with
-    | (none, par') => (par', s, e)
+    | (none, par') => .ok (par', s, e)
     | (some l, par') =>
       if startsWith l.content "*** " && endsWith l.content " ****" then
-        let (_, s', e') := parseContextRange s e (ctxRangeText l.content)
-        (par', s', e')
+        let (ok, s', e') := parseContextRange s e (ctxRangeText l.content)
+        if ok then .ok (par', s', e') else .error .runtimeError
       else ctxSkipToOldRange fuel par' s e
 
 /-- every line of the new half of a context hunk begins with "  ", "+ " or "! " -/
@@ -420,7 +420,9 @@ def isToFileLine (l : Bytes) : Bool :=
 /-- `Parser::parse_context_hunk` → (old_lines, old_start, new_lines, new_start, parser) -/
 def parseContextHunk (par : Parser) : Except Exn (List PatchLine × Int × List PatchLine × Int × Parser) :=
   let fuel := par.s.rest.length + 2
-  let (par1, oldStart, oldEnd) := ctxSkipToOldRange fuel par 0 0
+  match ctxSkipToOldRange fuel par 0 0 with
+  | .error e => .error e
+  | .ok (par1, oldStart, oldEnd) =>
   match par1.getLine with
   | (none, _) => .error .runtimeError
   | (some l1, par2) =>
